@@ -1,4 +1,5 @@
 import TrippyVerif.Props.C01
+import TrippyVerif.Props.C06
 /-!
 # C10, "when the path is stable and the target answers, that length equals the target's true distance"
 
@@ -222,7 +223,21 @@ theorem stable_path_length {c : Cfg} (hc : CfgOk c) {d : Nat} {s s' s1 : TS} (hr
   obtain ⟨_, _, _, hl⟩ := iter_targetTtl hc hr.reach h
   exact hl rd d hpub hd'
 
+
+/-- **C06 on a stable path: never above the target's distance once it is established.**  After the
+    answer to the `ttl = d` probe has been accepted, no probe with a larger TTL is handed to
+    `send_probe` again — in this round or any later one. -/
+theorem stable_path_no_probe_beyond {c : Cfg} (hc : CfgOk c) {d : Nat} {s s' : TS} (hr : ReachS c d s)
+    (hest : s.targetTtl = some d) {e : IterEnv} {o : IterOut} (h : iter c s e = .ok (s', o)) :
+    ∀ x ∈ o.sent, x.1.ttl ≤ d := by
+  intro x hx
+  have hne : o.sent ≠ [] := by intro hn; simp [hn] at hx
+  obtain ⟨_, _, _, htt, _, hall⟩ := C06.send_discipline hc hr.reach h hne
+  rw [(hall x hx).1]
+  exact htt d hest
+
 #print axioms iter_targetTtl
+#print axioms stable_path_no_probe_beyond
 #print axioms target_ttl_ge
 #print axioms exact_answer_establishes
 #print axioms established_stays
